@@ -106,7 +106,8 @@ def desc_type(desc, name):
 
 
 def gen_schema(rng, size=2, with_directives=True, with_descriptions=True, with_defaults=True,
-               with_mutation=None, with_subscription=False, recursive_inputs=False):
+               with_mutation=None, with_subscription=False, recursive_inputs=False,
+               divergent_implementations=True):
     """Return a description of a valid schema."""
     n_enum = rng.randint(1, 1 + size // 2)
     n_input = rng.randint(1, 1 + size // 2)
@@ -200,6 +201,19 @@ def gen_schema(rng, size=2, with_directives=True, with_descriptions=True, with_d
                 # covariant narrowing sometimes
                 if g["type"][0] != "nonNull" and rng.random() < 0.3:
                     g["type"] = nn(g["type"])
+                # implementations may declare ADDITIONAL optional arguments and their own defaults
+                if divergent_implementations and rng.random() < 0.5:
+                    extra = gen_args(1)
+                    for a in extra:
+                        a["name"] = "x_" + nme.lower() + "_" + a["name"]
+                        if a["type"][0] == "nonNull":
+                            a["type"] = a["type"][1]
+                    g["args"] = g["args"] + extra
+                if divergent_implementations and with_defaults and g["args"] and rng.random() < 0.4:
+                    a = rng.choice(g["args"])
+                    d2 = default_for(rng, a["type"], desc)
+                    if not (d2 == "null" and a["type"][0] == "nonNull") and (d2 is not None or a["type"][0] != "nonNull"):
+                        a["default"] = d2
                 fields.append(g)
         fields += gen_fields("o" + nme[2:] + "_", rng.randint(1, 3))
         desc["types"].append({"kind": "object", "name": nme, "interfaces": impl, "fields": fields, "desc": maybe_desc(nme)})
